@@ -80,7 +80,7 @@ var zzC07Names = map[string]zzC07Name{
 }
 
 var zzC07NameKeys = []string{"org", "sub", "com", "idn", "amp", "quo"}
-var zzC07ClientKeys = []string{"plain", "cid", "cid2", "named", "v6"}
+var zzC07ClientKeys = []string{"plain", "cid", "cid2", "named", "v6", "roam", "roam2"}
 
 type zzC07Client struct {
 	ip    string
@@ -96,6 +96,11 @@ var zzC07Clients = map[string]zzC07Client{
 	// Capitals inside the name, for lower-case terms beginning with s and k.
 	"named": {ip: "10.20.30.40", cname: "Dads-Samsung-Kindle"},
 	"v6":    {ip: "2001:db8::17"},
+	// One ClientID that is no persistent client's identifier, seen from two
+	// addresses: behind the first the client lookup finds "named" by address,
+	// behind the second it finds nothing.
+	"roam":  {ip: "10.20.30.40", cid: "guest-phone", cname: "Dads-Samsung-Kindle"},
+	"roam2": {ip: "192.168.10.5", cid: "guest-phone"},
 }
 
 var zzC07Terms = map[string]string{
